@@ -132,7 +132,9 @@ impl<K: SimKernel<D>, const D: usize> Monitor<K, D> for C01 {
         }
         let rd = refdt::check(post);
         ctx.stats.abstained += rd.abstained as u64;
-        if !rd.violations.is_empty() {
+        if out.predicate_failure_absorbed() {
+            ctx.stats.bump("c01.delaunay_clause_not_judged_predicate_failure_absorbed");
+        } else if !rd.violations.is_empty() {
             fail(
                 ctx,
                 "construction-not-delaunay",
